@@ -199,6 +199,7 @@ C08Range == cfg.checkRange => O!C08Range
 \* the same by exact comparison of the f64 values with the declared bounds (no fixed-point slack)
 C08Exact == cfg.checkRange => outside = 0
 C08Done == O!C08Done
+C08Held == O!C08Held
 C04Frozen == cfg.checkRange => O!C04Frozen
 C18 == O!C18
 C18Finish == O!C18Finish
